@@ -372,6 +372,7 @@ def run(pid, tier, replay=None):
     if pid in ("C03", "C04", "C10", "C11", "C12", "C18"):
         if pid == "C12":
             layout_family(chk, tier)
+            registry_family(pid, tier, chk)       # the layouts of real registry graphs, judged and followed by Layout.tla
         if pid == "C11":
             t, i = DM.label_traces(chk, 3)
             chk.exhaustive_parts.append("MC_Labels: label pipeline on every pair of keys of <=3 characters over a 7-character alphabet "
